@@ -83,6 +83,11 @@ CLAIMED = {
             "match = covered-by-some-added-host, len/iter = minimal elements; recorded histories of the real class (spellings from a TLA+ table) "
             "are validated step by step.",
             "Trusted: TLC, the spelling table in C09.tla (cross-checked against python idna at run time), the URL forms of the query table."),
+    "C20": ("DESIGN.md section 4 / C20",
+            "ensure/force/strip as TLA+ operators with the five laws model checked by TLC over all short strings x protocols; TLC-enumerated strings and builder argument combinations replayed into the real helpers; TLA+ contracts (query decodes to retained arguments, single-slash join, fragment, read-back, pathsplit) judged by the trace spec; two recorded known findings",
+            "TLC checks the protocol laws on the model (and that they can only fail on nested-protocol inputs), and judges every observed result of "
+            "ensure/force/strip_protocol, format_url / URLFormatter, add_query_argument / get_query_argument and pathsplit / urlpathsplit against the TLA+ contracts.",
+            "Trusted: TLC; Url.tla / Pct.tla; value table (str() of ints and floats checked at run time)."),
 }
 
 PENDING_REASON = "check not built yet in this revision (planned: TLA+ spec + trace validation, see DESIGN.md section 4); not claimed"
